@@ -132,6 +132,9 @@ def judge_a(case):
                     got = ev(uid="unit")
                 elif case["via"] == "cum":
                     got = sut.binning().deterministic_choice("unit", labels, cum_weights=list(itertools.accumulate(nums)))
+                elif case["via"] == "iter":
+                    # weights as a one-shot iterable (a generator / map object), accepted like random.choices accepts them
+                    got = sut.binning().deterministic_choice("unit", labels, weights=(w for w in nums) if k % 2 else map(lambda w: w, nums))
                 else:
                     _BUF[:] = nums  # one list object, edited in place from case to case, as a long-lived caller would
                     got = sut.binning().deterministic_choice("unit", labels, weights=_BUF)
@@ -370,7 +373,7 @@ def cases_a(draw):
     if len(ks) > 40:
         idxs = draw(st.lists(st.integers(0, len(ks) - 1), min_size=30, max_size=30))
         ks = sorted({ks[i] for i in idxs} | {0, GRID - 1})
-    case = {"ws": ws, "ks": ks, "via": draw(st.sampled_from(["direct", "dsl", "dsl", "cum"]))}
+    case = {"ws": ws, "ks": ks, "via": draw(st.sampled_from(["direct", "dsl", "dsl", "cum", "iter"]))}
     if n >= 2 and draw(st.integers(0, 3)) == 0:
         # the same label on several slices (its share is the sum of its slices, each slice stays where it was declared),
         # incl. labels that are ==-equal but of different type (1 and 1.0)
@@ -407,6 +410,7 @@ def small_vectors():
                 continue
             ws = list(ws)
             yield {"ws": ws, "ks": _positions(ws, [1, GRID // 2, GRID // 3]), "via": "direct"}
+            yield {"ws": ws, "ks": _positions(ws, [2, GRID // 2]), "via": "iter"}
             if n <= 3:
                 yield {"ws": ws, "ks": _positions(ws, []), "via": "dsl"}
             if n == 3 and ws[0] != ws[2]:
